@@ -313,7 +313,7 @@ class SysStub(PyStub):
         self.pbc = tuple(pbc)
         self.symbols = ('Al', 'Cu')
         self.masses = (None, None)
-        self.box = BoxStub(tilt)
+        self._box = BoxStub(tilt)
         self.timestep = sp.Symbol('TS', integer=True)
         self._props = list(props)
         self._flags = np.zeros((2, 3), dtype=object) if flags == 'zero' else (arr([[1, 0, -2], [-1, 0, 2]]) if flags == 'cancel' else symarray('img', (2, 3), integer=True, nonzero=True))
@@ -322,7 +322,18 @@ class SysStub(PyStub):
         view = {}
         for p in props:
             view[p] = symarray(p, (2, 3)) if p in ('pos', 'velocity') else symarray(p, (2,))
-        self.atoms = AtomsStub(view)
+        self._atoms = AtomsStub(view)
+
+    # reads of the cell and of the atoms are recorded: what is written must be read after the wrap (which may enlarge the cell along non-periodic directions)
+    @property
+    def box(self):
+        self.calls.append(('read', 'box'))
+        return self._box
+
+    @property
+    def atoms(self):
+        self.calls.append(('read', 'atoms'))
+        return self._atoms
 
     def wrap(self, return_imageflags=False):
         self.calls.append(('wrap', return_imageflags))
@@ -431,7 +442,7 @@ def data_file(ctx):
             content = wr[0][3] if ok else None
         # --- ordering: wrap first, with image flags requested
         ok = system.calls[:1] == [('wrap', True)]
-        ctx.ob('DATA-FILE', loc, '%s: atoms are wrapped (image flags requested) before anything is read from the system' % tag, ok, str(system.calls[:3]), node=fn, key=tag + ' wrap first')
+        ctx.ob('DATA-FILE', loc, '%s: atoms are wrapped (image flags requested) before the cell, the atoms or any property is read from the system (the wrap may enlarge the cell)' % tag, ok, str(system.calls[:3]), node=fn, key=tag + ' wrap first')
         # --- snippet
         if pot is None:
             okinfo = isinstance(info, str)
@@ -745,7 +756,7 @@ def resolvers(ctx):
             ev.funcs['standard_conversions'] = std
         ev.globals = g
         given = [{'prop_name': 'stress', 'shape': (2, 2)}, {'prop_name': 'pos', 'table_name': ['x', 'y', 'z']}, {'prop_name': 'charge', 'table_name': 'q', 'unit': 'e'},
-                 {'prop_name': 'atype'}]
+                 {'prop_name': 'atype'}, {'prop_name': 'strain', 'table_name': ['e0', 'e1', 'e2', 'e3', 'e4', 'e5'], 'shape': (2, 3)}]
         kw = {'prop_info': given}
         if rel == DPI:
             kw['lammps_units'] = 'UQ'
@@ -756,11 +767,12 @@ def resolvers(ctx):
         live = [p for p in paths if p.done == 'return']
         ctx.need(len(live) == 1, '%s does not reduce to one path' % loc)
         out = live[0].ret
-        want = [('stress', ['stress[0][0]', 'stress[0][1]', 'stress[1][0]', 'stress[1][1]'], (2, 2), None), ('pos', ['x', 'y', 'z'], (3,), None), ('charge', ['q'], (), 'e'), ('atype', ['atype'], (), None)]
+        want = [('stress', ['stress[0][0]', 'stress[0][1]', 'stress[1][0]', 'stress[1][1]'], (2, 2), None), ('pos', ['x', 'y', 'z'], (3,), None), ('charge', ['q'], (), 'e'), ('atype', ['atype'], (), None),
+                ('strain', ['e0', 'e1', 'e2', 'e3', 'e4', 'e5'], (2, 3), None)]
         got = [(d.get('prop_name'), list(d.get('table_name', [])), tuple(d.get('shape', ('?',))), d.get('unit')) for d in out] if isinstance(out, list) else None
-        ctx.ob('RESOLVER', loc, 'defaults: component names prop[i][j] in C order for a given shape; shape = number of table names; str table name -> one column; unit defaults to None',
+        ctx.ob('RESOLVER', loc, 'defaults: component names prop[i][j] in C order for a given shape; shape = number of table names when none is given, a given shape is kept (the conversion tables the writers return carry both); str table name -> one column; unit defaults to None',
                got == want, 'got %s' % (got,), node=fn, key='defaults')
-        ctx.ob('RESOLVER', loc, 'the caller\'s prop_info is not modified (a copy is completed)', all('shape' not in d or d is given[0] for d in given[1:]) and 'table_name' not in given[0], node=fn, key='copy')
+        ctx.ob('RESOLVER', loc, 'the caller\'s prop_info is not modified (a copy is completed)', all('shape' not in d or d is given[0] or d is given[4] for d in given[1:]) and 'table_name' not in given[0], node=fn, key='copy')
         if rel == DPI:
             # named lists: standard LAMMPS dump columns from the requested unit style
             kw = {'prop_name': ['atom_id', 'pos', 'spos', 'velocity', 'myprop'], 'lammps_units': 'UQ'}
@@ -894,6 +906,21 @@ def poscar(ctx):
     ctx.ob('POSCAR', loc, 'a symbols list whose length differs from the number of atom types is refused', ok, node=fn, key='symbols length')
 
 
+def flag_types(ctx):
+    """the snippet writer uses the periodic flags as a mask (bflags[system.pbc] = 'p'): what System stores is a boolean array whatever the flags were given as
+    (0/1 integers select elements 0 and 1 instead of masking)"""
+    from .. import dtypeflow as D
+    SYSF = 'atomman/core/System.py'
+    cls = ctx.fn(SYSF, 'System')
+    types = D.class_attr_types(cls)
+    got = types.get('self.__pbc')
+    ctx.ob('FLAG-TYPES', SYSF + '::System.pbc', 'the periodic flags System stores are booleans whatever container or numbers they were given as (they are used as a mask by the data-file snippet)',
+           got is not None and set(got) == {'bool'}, 'stored element type: %s' % (sorted(map(str, got)) if got else 'not found'), node=cls, key='pbc bool')
+    fn = ctx.fn(AD, 'dump')
+    uses = [x for x in ast.walk(fn) if isinstance(x, ast.Subscript) and norm(x.slice).endswith('.pbc')]
+    ctx.floor('FLAG-TYPES', 1 + len(uses), 1)
+
+
 def run(ctx):
     ctx.explanation = ('C07: the three writers are evaluated by the analyser on model systems whose cell, counts and per-atom columns are symbols; the '
                        'reconstructed text (skeleton + values) is compared with the published line formats (LAMMPS read_data / dump, VASP POSCAR) for every '
@@ -908,4 +935,4 @@ def run(ctx):
         # the column tables are lists of dicts that the writers (and the hybrid arm of the table builder itself) extend and edit in place: each call must build its own
         for rel_, n_ in ((API, 1), (VPI, 1), (DPI, 2), (TPI, 1)):
             lints.fresh_results(c, 'FRESH-TABLES', rel_, floor=n_, what='a column table')
-    ctx.run_rules([prop_tables, data_file, dump_file, tables, poscar, system_wrap, fresh_tables])
+    ctx.run_rules([prop_tables, data_file, dump_file, tables, poscar, system_wrap, fresh_tables, flag_types])
